@@ -295,4 +295,29 @@ def secOK (opens closes : A → Bool) : Bool → List Ev → Bool
   | inside, .aw _ :: t => !inside && secOK opens closes false t
   | inside, .act n :: t => secOK opens closes (secNext opens closes inside (.act n)) t
 
+/-! ### one lock, any number of tasks, ANY interleaving -/
+
+/-- arbitrary interleavings of the tasks' local traces (no assumption on where tasks are switched) -/
+inductive Inter : (Nat → List Ev) → List (Nat × Ev) → Prop
+  | done {rem} : Inter rem []
+  | step {rem i e rest g} : rem i = e :: rest → Inter (upd rem i rest) g → Inter rem ((i, e) :: g)
+
+/-- the lock's own guarantee: an `acq` action is emitted only while nobody holds the lock (`holder` = who holds it) -/
+def LockRespecting (acq rel : A → Bool) : Option Nat → List (Nat × Ev) → Prop
+  | _, [] => True
+  | h, (_, .aw _) :: g => LockRespecting acq rel h g
+  | h, (i, .act a) :: g =>
+    if acq a then h = none ∧ LockRespecting acq rel (some i) g
+    else if rel a then LockRespecting acq rel (if h = some i then none else h) g
+    else LockRespecting acq rel h g
+
+/-- every `inner` action is emitted by the task that holds the lock at that moment -/
+def InnerByHolder (acq rel inner : A → Bool) : Option Nat → List (Nat × Ev) → Prop
+  | _, [] => True
+  | h, (_, .aw _) :: g => InnerByHolder acq rel inner h g
+  | h, (i, .act a) :: g =>
+    if acq a then InnerByHolder acq rel inner (some i) g
+    else if rel a then InnerByHolder acq rel inner (if h = some i then none else h) g
+    else (inner a = true → h = some i) ∧ InnerByHolder acq rel inner h g
+
 end GeckoModel.Coop
